@@ -70,7 +70,14 @@ def stepParser (l : Line) : Verdict :=
     match parseKinds kinds, ofHex buf with
     | some ks, some buf =>
       let m := modelRead ks buf
-      if m ≠ implS then .diff m else .ok
+      -- Spec: the pre-flight answer is "yes" exactly when the buffer holds the fields (whatever the readers then do)
+      let want := SpecC03.holdsFieldsB ks buf
+      match l.impl with
+      | c :: _ =>
+        if (c == "1") != want && (c == "1" || c == "0") then
+          .specFail "C03.can-i-read" s!"kinds={kinds} buf={buf.length} bytes: the check answered {c} but the fields are {if want then "" else "not "}all there"
+        else if m ≠ implS then .diff m else .ok
+      | [] => .bad "raw impl"
     | _, _ => .bad "raw args"
   | "atleast", [n, buf] =>
     match n.toNat?, ofHex buf with
